@@ -135,7 +135,10 @@ func (m *Model) Facts(f *ssa.Function, spec map[string]bool) (map[*ssa.BasicBloc
 					continue // the helper returns none but the constants this path has ruled out
 				}
 				for _, rl := range m.resultFacts(l) {
-					out[rl.String()] = rl
+					// a literal the branch itself establishes keeps its If (and is not "derived")
+					if _, own := out[rl.String()]; !own {
+						out[rl.String()] = rl
+					}
 				}
 			}
 			if in[s] == nil {
@@ -1484,4 +1487,65 @@ func definitelyNonNil(v ssa.Value) bool {
 		}
 	}
 	return false
+}
+
+
+// loopCounterBound recognises the test of a counted loop: lit compares (< or <=) a loop-carried
+// counter - a header phi that enters the loop with a constant and is advanced by a positive
+// constant on every back edge - with a constant. It returns the largest number of iterations.
+func (m *Model) loopCounterBound(l Lit) (trips int64, ok bool) {
+	s := l.S
+	if !l.Truth || s.Op != "bin" || (s.Name != "<" && s.Name != "<=") || len(s.Args) != 2 || s.Args[0].V == nil {
+		return 0, false
+	}
+	ph, isPhi := s.Args[0].V.(*ssa.Phi)
+	if !isPhi || !inLoop(ph.Block()) {
+		return 0, false
+	}
+	kc, isC := s.Args[1].V.(*ssa.Const)
+	if s.Args[1].V == nil || !isC {
+		return 0, false
+	}
+	limit, isInt := constInt(kc)
+	if !isInt {
+		return 0, false
+	}
+	start, step := int64(0), int64(0)
+	haveStart := false
+	for i, e := range ph.Edges {
+		if inLoopFrom(ph.Block().Preds[i], ph.Block()) {
+			bo, isBin := e.(*ssa.BinOp)
+			if !isBin || bo.Op != token.ADD {
+				return 0, false
+			}
+			var k int64
+			var kOK bool
+			switch {
+			case bo.X == ssa.Value(ph):
+				k, kOK = constInt(bo.Y)
+			case bo.Y == ssa.Value(ph):
+				k, kOK = constInt(bo.X)
+			}
+			if !kOK || k <= 0 || (step != 0 && step != k) {
+				return 0, false
+			}
+			step = k
+			continue
+		}
+		n, isK := constInt(e)
+		if !isK || (haveStart && n != start) {
+			return 0, false
+		}
+		start, haveStart = n, true
+	}
+	if !haveStart || step == 0 {
+		return 0, false
+	}
+	if s.Name == "<=" {
+		limit++
+	}
+	if limit <= start {
+		return 0, true
+	}
+	return (limit - start + step - 1) / step, true
 }
